@@ -666,6 +666,13 @@ def fwd_position(m: Model, d: Data, factorize: bool = True):
     else:
       collision_driver.collision(m, d)
 
+  # connect and weld rows subtract Jdot * qvel from aref using cvel and cdof_dot, which must belong to
+  # the current qvel (fwd_velocity only recomputes them after the constraints have been assembled)
+  if m.eq_connect_adr.size + m.eq_wld_adr.size > 0 and not (
+    m.opt.disableflags & (DisableBit.CONSTRAINT | DisableBit.EQUALITY)
+  ):
+    smooth.com_vel(m, d)
+
   constraint.make_constraint(m, d)
 
   if sleep_enabled:
